@@ -219,7 +219,7 @@ def soils(draw, P, zmax):
         dz = draw(dz_lists())
         args["dz"] = dz
     if flag(draw, P["p_soil_args"]):
-        which = draw(st.lists(st.sampled_from(["cn", "adj_cn", "calc_cn", "adj_rew", "z_cn", "z_germ", "evap", "fshape_cr"]),
+        which = draw(st.lists(st.sampled_from(["cn", "adj_cn", "calc_cn", "adj_rew", "z_cn", "z_germ", "evap", "fshape_cr", "z_res"]),
                               min_size=1, max_size=3, unique=True))
         if "cn" in which:
             args["cn"] = float(draw(st.integers(30, 95)))
@@ -240,6 +240,8 @@ def soils(draw, P, zmax):
             args["evap_z_max"] = draw(f2(0.25, 0.4))
         if "fshape_cr" in which:
             args["fshape_cr"] = draw(st.sampled_from([8, 16, 24]))
+        if "z_res" in which:
+            args["z_res"] = draw(f2(0.2, 2.5))   # documented constructor argument (depth of a restrictive layer)
     if flag(draw, P["p_custom_soil"]):
         base_dz = dz if dz is not None else [0.1] * 12
         nl = draw(st.integers(1, min(3, len(base_dz))))
